@@ -8,6 +8,53 @@ import Mathlib.Tactic.Linarith
 One preservation lemma per operation of `Qv.Res`, then the step lemma for a table `Impl` whose D3
 entries are known to preserve the invariant.
 -/
+namespace Qv
+
+/-! ## the extended rationals are linearly ordered
+
+`EVal.le` / `EVal.lt` (`Qv/Model/EVal.lean`) are the comparisons of Python numbers without NaN; here they
+are shown to be a linear order, so that every order lemma used below (`le_refl`, `le_trans`, `le_of_lt`,
+`not_lt`, `le_total`) is available for values `-inf`, finite, `+inf` alike. -/
+
+namespace EVal
+
+theorem le_def (a b : EVal) : a ≤ b ↔ le a b = true := Iff.rfl
+theorem lt_def (a b : EVal) : a < b ↔ lt a b = true := Iff.rfl
+
+@[simp] theorem fin_le_fin (a b : Rat) : (fin a ≤ fin b) ↔ a ≤ b := by simp [le_def, le]
+@[simp] theorem fin_lt_fin (a b : Rat) : (fin a < fin b) ↔ a < b := by simp [lt_def, lt]
+@[simp] theorem ninf_le (a : EVal) : ninf ≤ a := by cases a <;> simp [le_def, le]
+@[simp] theorem le_pinf (a : EVal) : a ≤ pinf := by cases a <;> simp [le_def, le]
+@[simp] theorem fin_lt_pinf (a : Rat) : fin a < pinf := by simp [lt_def, lt]
+@[simp] theorem ninf_lt_fin (a : Rat) : ninf < fin a := by simp [lt_def, lt]
+@[simp] theorem ninf_lt_pinf : ninf < pinf := by simp [lt_def, lt]
+@[simp] theorem not_pinf_lt (a : EVal) : ¬ pinf < a := by cases a <;> simp [lt_def, lt]
+@[simp] theorem not_lt_ninf (a : EVal) : ¬ a < ninf := by cases a <;> simp [lt_def, lt]
+
+instance : LinearOrder EVal where
+  le_refl a := by cases a <;> simp [le_def, le]
+  le_trans a b c := by
+    cases a <;> cases b <;> cases c <;> simp [le_def, le]
+    exact fun h1 h2 => _root_.le_trans h1 h2
+  lt_iff_le_not_ge a b := by
+    cases a <;> cases b <;> simp [le_def, lt_def, le, lt]
+    exact fun h => le_of_lt h
+  le_antisymm a b := by
+    cases a <;> cases b <;> simp [le_def, le]
+    exact fun h1 h2 => _root_.le_antisymm h1 h2
+  le_total a b := by
+    cases a <;> cases b <;> simp [le_def, le]
+    exact _root_.le_total _ _
+  toDecidableLE := fun a b => inferInstanceAs (Decidable (le a b = true))
+  toDecidableLT := fun a b => inferInstanceAs (Decidable (lt a b = true))
+  toDecidableEq := inferInstance
+
+/-- nothing is below `-inf`, nothing above `+inf`: the two infinite values are the bounds of the line -/
+theorem ninf_le_all_le_pinf (a : EVal) : ninf ≤ a ∧ a ≤ pinf := ⟨ninf_le a, le_pinf a⟩
+
+end EVal
+end Qv
+
 namespace Qv.Res
 open Qv
 
